@@ -9,8 +9,9 @@ an independent second opinion on the C20 clamps.
 Supported MIR subset (anything else raises Unsupported -> the query is INCONCLUSIVE):
   locals _N of type f32/u32/bool/()/one-field f32 newtypes; `(*_1).K` field places of the
   &mut self argument (struct fields are symbolic inputs); operands copy/move/const;
-  BinOps Lt Le Gt Ge Eq Ne Add Sub Mul Div Rem(const 1f32 only) on f32, BitAnd/Shr/Add/Sub
-  on u32 (wrapping; overflow checks are Kani's job); casts IntToFloat (u32->f32, RNE) and
+  BinOps Lt Le Gt Ge Eq Ne Add Sub Mul Div Rem(const 1f32 only) on f32, BitAnd/Shr/Shl/Add/Sub
+  on u32/i32, checked Add/Sub with their rustc-inserted assert (recorded as an obligation), const
+  generics TOTAL_NUM_BITS/NUM_INDEX_BITS instantiated as <24, 10>; casts IntToFloat (u32->f32, RNE) and
   FloatToInt (f32->u32, saturating, NaN->0); calls f32::max / f32::min (IEEE maxNum/minNum,
   Rust's NaN rule) and calls to other functions of the same dump (inlined); switchInt on
   bool; goto; return.  Control flow must be a DAG (no loops).
@@ -121,6 +122,8 @@ class Exec:
         self.fresh = 0
         self.used = set()
         self.panics = []  # path conditions under which a rustc-inserted assert (overflow check) fails
+        # const generics of PhaseAccumulator as both owners (Adsr, Lfo) instantiate it: <24, 10>
+        self.generics = {"TOTAL_NUM_BITS": 24, "NUM_INDEX_BITS": 10}
 
     def find(self, callee):
         # callee text like `PhaseAccumulator::<TOTAL_NUM_BITS, NUM_INDEX_BITS>::reset`
@@ -148,9 +151,12 @@ class Exec:
             mm = re.match(r"(-?[\d.eE+-]+|-?inf|NaN)f32$", c)
             if mm:
                 return (F32, f32_const(mm.group(1)))
-            mm = re.match(r"(\d+)_u32$", c)
+            mm = re.match(r"(-?\d+)_(u32|i32)$", c)
             if mm:
-                return ("(_ BitVec 32)", "(_ bv%d 32)" % int(mm.group(1)))
+                return ("(_ BitVec 32)", "(_ bv%d 32)" % (int(mm.group(1)) & 0xffffffff))
+            if c in self.generics:
+                # const generic parameter, instantiated as the crate's owners instantiate it
+                return ("(_ BitVec 32)", "(_ bv%d 32)" % self.generics[c])
             mm = re.match(r"[\w:]*?(\w+)$", c)
             if mm and mm.group(1) in self.consts:
                 return (F32, f32_const(self.consts[mm.group(1)]))
@@ -192,7 +198,7 @@ class Exec:
         rv = rv.strip()
         m = re.match(r"(\w+)\((.*), (.*)\)$", rv)
         if m and m.group(1) in ("Lt", "Le", "Gt", "Ge", "Eq", "Ne", "Add", "Sub", "Mul", "Div", "Rem",
-                                "BitAnd", "Shr", "AddWithOverflow", "SubWithOverflow"):
+                                "BitAnd", "Shr", "Shl", "AddWithOverflow", "SubWithOverflow"):
             op, a, b = m.group(1), self.operand(st, m.group(2)), self.operand(st, m.group(3))
             if a[0] == F32:
                 if op in ("Lt", "Le", "Gt", "Ge"):
@@ -223,7 +229,7 @@ class Exec:
                         r = "(bvsub %s %s)" % (a[1], b[1])
                         ov = "(bvult %s %s)" % (a[1], b[1])
                     return ("Tuple", [(a[0], r), ("Bool", ov)])
-                bv = {"Add": "bvadd", "Sub": "bvsub", "BitAnd": "bvand", "Shr": "bvlshr", "Mul": "bvmul"}
+                bv = {"Add": "bvadd", "Sub": "bvsub", "BitAnd": "bvand", "Shr": "bvlshr", "Shl": "bvshl", "Mul": "bvmul"}
                 if op in bv:
                     return (a[0], "(%s %s %s)" % (bv[op], a[1], b[1]))
                 cmp_ = {"Lt": "bvult", "Le": "bvule", "Gt": "bvugt", "Ge": "bvuge"}
@@ -235,7 +241,9 @@ class Exec:
         m = re.match(r"(.*) as f32 \(IntToFloat\)$", rv)
         if m:
             a = self.operand(st, m.group(1))
-            return (F32, "((_ to_fp_unsigned 8 24) RNE %s)" % a[1])
+            src = re.match(r"(?:copy|move) (_\d+)$", m.group(1).strip())
+            signed = bool(src) and fn.local_ty.get(src.group(1), "").startswith("i")
+            return (F32, "((_ %s 8 24) RNE %s)" % ("to_fp" if signed else "to_fp_unsigned", a[1]))
         m = re.match(r"(.*) as u32 \(FloatToInt\)$", rv)
         if m:
             a = self.operand(st, m.group(1))
